@@ -505,9 +505,15 @@ def _replay_rebase_loop(v, native):
         return {'reproduced': False, 'note': 'rewritten commits that already carry a note are not staged natively'}
     tmp = tempfile.mkdtemp(prefix='vc05r')
     env = dict(os.environ, GIT_AUTHOR_NAME='v', GIT_AUTHOR_EMAIL='v@v', GIT_COMMITTER_NAME='v', GIT_COMMITTER_EMAIL='v@v',
-               HOME=tmp, GIT_CONFIG_NOSYSTEM='1', GIT_AUTHOR_DATE='1700000000 +0000', GIT_COMMITTER_DATE='1700000000 +0000')
+               HOME=tmp, GIT_CONFIG_NOSYSTEM='1', GIT_AUTHOR_DATE='1790000000 +0000', GIT_COMMITTER_DATE='1790000000 +0000')
+
+    clock = [1790000000]      # git-ai does not blame commits older than 2025-07-04
 
     def git(*a, **kw):
+        if a and a[0] == 'commit-tree':
+            # later commits are younger (blame is bounded by commit dates)
+            clock[0] += 60
+            env['GIT_AUTHOR_DATE'] = env['GIT_COMMITTER_DATE'] = '%d +0000' % clock[0]
         p = subprocess.run(['git'] + list(a), cwd=tmp, env=env, stdout=subprocess.PIPE, stderr=subprocess.PIPE, input=kw.get('input'))
         if p.returncode != 0:
             raise RuntimeError('git %r: %s' % (a, p.stderr.decode()))
@@ -522,7 +528,9 @@ def _replay_rebase_loop(v, native):
     try:
         git('init', '-q', '.')
         O = inp['original']
-        who = inp['authors']
+        # real session ids are 16 hex digits
+        REAL = {'s1': 'a1a1a1a1a1a1a1a1', 's2': 'b2b2b2b2b2b2b2b2'}
+        who = {k: REAL[x] for k, x in inp['authors'].items()}
         otext = c02._text(O)
         base = git('commit-tree', '-m', 'base', tree({'base.txt': b'base\n'}))
         upstream = git('commit-tree', '-m', 'upstream', '-p', base, tree({'base.txt': b'base\n', 'f': otext, 'up.txt': b'u\n'}))
@@ -542,7 +550,7 @@ def _replay_rebase_loop(v, native):
             if who.get(x):
                 ranges.setdefault(who[x], []).append(j + 1)
         txt = native('c05_note_text', {'file': 'f', 'sessions': [[k, ls] for k, ls in sorted(ranges.items())], 'base': originals[0],
-                                       'records': ['s1', 's2'][:2 if 's2' in who.values() else 1]})['text']
+                                       'records': [REAL['s1'], REAL['s2']][:2 if REAL['s2'] in who.values() else 1]})['text']
         git('notes', '--ref=ai', 'add', '-f', '-F', '-', originals[0], input=txt.encode())
         news = []
         parent = upstream
